@@ -352,3 +352,48 @@ package rag
 //@   ensures one_record_per_chunk_in_order: len(records) == len(chunks) && forall k int :: {records[k]} 0 <= k && k < len(chunks) ==> records[k].ID == chunks[k].ID && records[k].Text == chunks[k].Text
 //@   loop 0:
 //@     invariant len(records) == len(chunks) && forall k int :: {records[k]} 0 <= k && k < $i ==> records[k].ID == chunks[k].ID && records[k].Text == chunks[k].Text
+
+// the convenience filters are Filter with exactly the documented criterion (fv_predicate is defined by the closure
+// literal each of them passes to Filter)
+//@ func (*ChunkCollection) FilterByPageRange results (res)
+//@   property C14
+//@   ensures selection_criterion: forall c *Chunk :: {fv_predicate(c)} fv_predicate(c) <==> (c.Metadata.PageEnd >= startPage && c.Metadata.PageStart <= endPage)
+//@   ensures count: len(res.Chunks) == predCount(cc.Chunks, len(cc.Chunks))
+//@   ensures exact_in_order: forall j int :: {cc.Chunks[j]} 0 <= j && j < len(cc.Chunks) && fv_predicate(cc.Chunks[j]) ==> res.Chunks[predCount(cc.Chunks, j)] == cc.Chunks[j]
+
+//@ func (*ChunkCollection) FilterByPage results (res)
+//@   property C14
+//@   ensures selection_criterion: forall c *Chunk :: {fv_predicate(c)} fv_predicate(c) <==> (c.Metadata.PageStart <= page && page <= c.Metadata.PageEnd)
+//@   ensures count: len(res.Chunks) == predCount(cc.Chunks, len(cc.Chunks))
+//@   ensures exact_in_order: forall j int :: {cc.Chunks[j]} 0 <= j && j < len(cc.Chunks) && fv_predicate(cc.Chunks[j]) ==> res.Chunks[predCount(cc.Chunks, j)] == cc.Chunks[j]
+
+//@ func (*ChunkCollection) FilterWithTables results (res)
+//@   property C14
+//@   ensures selection_criterion: forall c *Chunk :: {fv_predicate(c)} fv_predicate(c) <==> (c.Metadata.HasTable)
+//@   ensures count: len(res.Chunks) == predCount(cc.Chunks, len(cc.Chunks))
+//@   ensures exact_in_order: forall j int :: {cc.Chunks[j]} 0 <= j && j < len(cc.Chunks) && fv_predicate(cc.Chunks[j]) ==> res.Chunks[predCount(cc.Chunks, j)] == cc.Chunks[j]
+
+//@ func (*ChunkCollection) FilterWithLists results (res)
+//@   property C14
+//@   ensures selection_criterion: forall c *Chunk :: {fv_predicate(c)} fv_predicate(c) <==> (c.Metadata.HasList)
+//@   ensures count: len(res.Chunks) == predCount(cc.Chunks, len(cc.Chunks))
+//@   ensures exact_in_order: forall j int :: {cc.Chunks[j]} 0 <= j && j < len(cc.Chunks) && fv_predicate(cc.Chunks[j]) ==> res.Chunks[predCount(cc.Chunks, j)] == cc.Chunks[j]
+
+//@ func (*ChunkCollection) FilterWithImages results (res)
+//@   property C14
+//@   ensures selection_criterion: forall c *Chunk :: {fv_predicate(c)} fv_predicate(c) <==> (c.Metadata.HasImage)
+//@   ensures count: len(res.Chunks) == predCount(cc.Chunks, len(cc.Chunks))
+//@   ensures exact_in_order: forall j int :: {cc.Chunks[j]} 0 <= j && j < len(cc.Chunks) && fv_predicate(cc.Chunks[j]) ==> res.Chunks[predCount(cc.Chunks, j)] == cc.Chunks[j]
+
+//@ func (*ChunkCollection) FilterByMinTokens results (res)
+//@   property C14
+//@   ensures selection_criterion: forall c *Chunk :: {fv_predicate(c)} fv_predicate(c) <==> (c.Metadata.EstimatedTokens >= minTokens)
+//@   ensures count: len(res.Chunks) == predCount(cc.Chunks, len(cc.Chunks))
+//@   ensures exact_in_order: forall j int :: {cc.Chunks[j]} 0 <= j && j < len(cc.Chunks) && fv_predicate(cc.Chunks[j]) ==> res.Chunks[predCount(cc.Chunks, j)] == cc.Chunks[j]
+
+//@ func (*ChunkCollection) FilterByMaxTokens results (res)
+//@   property C14
+//@   ensures selection_criterion: forall c *Chunk :: {fv_predicate(c)} fv_predicate(c) <==> (c.Metadata.EstimatedTokens <= maxTokens)
+//@   ensures count: len(res.Chunks) == predCount(cc.Chunks, len(cc.Chunks))
+//@   ensures exact_in_order: forall j int :: {cc.Chunks[j]} 0 <= j && j < len(cc.Chunks) && fv_predicate(cc.Chunks[j]) ==> res.Chunks[predCount(cc.Chunks, j)] == cc.Chunks[j]
+
